@@ -414,7 +414,7 @@ impl PropImpl for C11 {
          an empty entry/substvar/newline. Distinct by hash of (start text, history).".into()
     }
     fn budget(&self, tier: Tier) -> Budget {
-        Budget { cases_per_lane: if tier == Tier::Quick { 2000 } else { 40_000 }, tape_max: 600, cpu_s: 10 }
+        Budget { cases_per_lane: if tier == Tier::Quick { 10000 } else { 40_000 }, tape_max: 600, cpu_s: 10 }
     }
     fn spaces(&self, tier: Tier) -> Vec<Space> {
         let depth = if tier == Tier::Quick { 1 + RADIX + RADIX * RADIX } else { HIST };
